@@ -146,6 +146,9 @@ def run(ctx):
     # the process around the dispatcher: one goroutine per listener, start-up environments of Listeners.tla on the real binary
     import listenfam
     cov["listener_probes"] = listenfam.replay(ctx, "C10")
+    # the hooks loop and the dispatcher: notification channel exactly full, then a reload, then the loop goes on
+    import c19
+    cov["hooks_full_queue_reload_scenarios"] = c19.full_queue_reload_leg(ctx, "C10")
     ctx.assumptions += ["liveness is proved on the bounded model (3 clients, capacity 2) under weak fairness of the "
                         "dispatcher, hooks consumer and upgrader; on the code it is observed as completion of finite "
                         "gated scenarios and seeded loads within a watchdog",
